@@ -4,7 +4,7 @@ Every case is a small inventory (<= 4 hosts x <= 3 services, colliding names), a
 and/or API filter queries.  The harness loads the real config twice - as written and with every
 `assign where F` rewritten to `(F) && true` (which ApplyRule::AddTargetedRule does not recognise) -
 and prints the objects existing afterwards; the model prints ar_apply_fast / ar_apply."""
-import random
+import random, re
 
 PID = 'C16'
 HEADER = []
@@ -321,14 +321,17 @@ def classify(case, detail, impl_lines):
     if 'crash' in detail:
         return 'crash'
     if 'api-recorded-divergence' in detail:
-        return 'api-filter-var-named-like-target'
-    if 'recorded-divergence' in detail and 'premise=shadowed-target-variable' in detail:
-        return 'shadowed-target-variable'
+        return 'api-recorded-divergence'
     if 'recorded-divergence' in detail and 'premise=for-error-on-unindexed-target' in detail:
         return 'for-error-on-unindexed-target'
     if 'api-' in detail:
+        # a fixed finding coming back (fix reverted) keeps its name
+        if 'depends-on-fast-path' in detail and any(l.startswith('ar_api') and re.search(r'fv=(?:.*,)?(host|service|obj):', l) for l in case['lines']):
+            return 'api-filter-var-named-like-target'
         return 'api-fast-path'
     if 'depends-on-fast-path' in detail:
+        if any(l.startswith('ar_rule') and re.search(r' f[kv]=(host|service) ', l + ' ') for l in case['lines']):
+            return 'shadowed-target-variable'
         return 'fast-path-changes-created-set'
     if 'not-the-matching-targets' in detail:
         return 'created-set-wrong'
